@@ -34,6 +34,13 @@ class TorchCalls(TorchOps):
             return self.call_lib(lib, fn, args, kwargs, node, env)
         if name == "functools.partial":
             return PartialV(args[0], tuple(args[1:]), tuple(kwargs.items()))
+        if name in ("dataclasses.replace", "copy.replace") and len(args) == 1 and isinstance(args[0], ObjV) and set(kwargs) <= set(args[0].fields):
+            # a new instance with the same fields, the named ones changed
+            o = ObjV(args[0].cls, dict(args[0].fields))
+            o.fields.update(kwargs)
+            if getattr(args[0], "tuple_fields", None):
+                o.tuple_fields = list(args[0].tuple_fields)
+            return o
         if name == "itertools.accumulate":
             extra = set(kwargs) - {"initial"}
             init = kwargs.get("initial")
